@@ -177,13 +177,13 @@ def unit_circshift(prop):
 def unit_copy_samples(prop):
     def unit(tier, known):
         from contracts import sphere as C
-        return run_contract(prop, ("_sphere", "copy_samples"), C.contract(), C.SETUPS, name="copy_samples", to_case=getattr(C, "to_case", None), replay_module="rtc.c12")
+        return run_contract(prop, ("_sphere", "copy_samples"), C.contract(), C.SETUPS, name="copy_samples", to_case=C.to_case, replay_module="rtc.c12")
     unit.__name__ = "copy_samples"
     return unit
 
 
 UNITS = {
-    "C12": [unit_copy_samples("C12")],
+    "C12": [unit_copy_samples("C12"), _lazy("contracts.sphere", "unit_g711", "C12")],
     "C20": [unit_circshift("C20"), _lazy("contracts.util_misc", "unit_angular", "C20")],
     "C05": [unit_tri("C05", "init"), unit_tri("C05", "truncated")],
     "C06": [unit_tri("C06", "truncated")],
